@@ -145,7 +145,3 @@ Theorem C08_json_cbor_instance : forall b v, all_bytes b = true -> (zlen b <=? M
     forall cs, concat cs = b -> exists p', SF.Json.Parse.jrun_chunks CC.ComposeExamples.toy_pf None cs = Ok (flatten t', SF.Json.Parse.jpnil, p').
 Proof. exact CC.ComposeExamples.C08_json_cbor_toy. Qed.
 Print Assumptions C08_json_cbor_instance.
-
-Theorem C08_pipeline_sample_wf : wf_tree CC.ComposeExamples.sample = true.
-Proof. exact (proj1 CC.ComposeExamples.pipeline). Qed.
-Print Assumptions C08_pipeline_sample_wf.
